@@ -154,11 +154,11 @@ EndViol(st, e) ==
   \cup UNION {
      LET x == Pol(exp, n) IN
      IF x.sel /\ x.eval = "ok"
-     THEN (IF n \notin names THEN {V(IF exp.prop \in {"C15", "C11"} THEN exp.prop ELSE "C01", "ManagedPolicyMissingAfterSuccessfulRun", "", e)}
+     THEN (IF n \notin names THEN {V(IF exp.prop \in {"C15", "C11", "C17"} THEN exp.prop ELSE "C01", "ManagedPolicyMissingAfterSuccessfulRun", "", e)}
            ELSE LET P == Get(st.eph, n) IN
              (IF AcceptAtoms(P, "inet", d) # ToSet(x.v4) \/ AcceptAtoms(P, "inet6", d) # ToSet(x.v6)
                  \/ AcceptsOutsideUniverse(P, d) \/ FailOpen(P)
-              THEN {V(IF exp.prop \in {"C15", "C11"} THEN exp.prop ELSE "C01", "InstalledFilterDiffersFromEvaluatedSet",
+              THEN {V(IF exp.prop \in {"C15", "C11", "C17"} THEN exp.prop ELSE "C01", "InstalledFilterDiffersFromEvaluatedSet",
                       IF AcceptAtoms(P, "inet", d) # ToSet(x.v4) THEN "inet" ELSE "inet6/other", e)} ELSE {})
              \cup (IF ~Readable(P) THEN {V("C01", "InstalledStateNotReadableByTheAgent", "", e)} ELSE {}))
      ELSE IF x.marked /\ x.eval \notin {"ok", "skip"}
